@@ -59,7 +59,7 @@ CHECKS.update({
         note="Trusted base: the hook wrappers call the crate-private routines unchanged; loopback networking for the end-to-end leg (refused connects are immediate compared with the >= 570 ms stagger)."),
     "C20": dict(engine="sni+tlsstack", ref="§5 C20, §4 E10, §10.3",
         technique="grammar-based property testing of the public ValidateSNI layer against an independent reference predicate (two-directional: never forwarded on mismatch, never rejected on match)",
-        text="Requests over all http::Version constants x Host header x URI authority x letter case x port x IPv4/IPv6 literals x server name (absent/equal/equal modulo case/different) x TLS info; forwarded/rejected outcome and the validated flag observed by a recording inner service must equal the reference predicate wherever the property constrains it. A full-stack leg (engine tlsstack) runs the real Server with with_tls_connection_info + with_tls + ValidateSNI against the real client stack (TlsTransport, HTTP/1 and HTTP/2, ALPN): the handler must run exactly when the request host equals the handshake SNI, and a mismatching Host header (HTTP/1) must be answered without the handler running.",
+        text="Requests over all http::Version constants x Host header x URI authority x letter case x port x IPv4/IPv6 literals x server name (absent/equal/equal modulo case/different/near miss: one character more, fewer or replaced at either end) x TLS info, with names from a table and generated DNS-style names; forwarded/rejected outcome and the validated flag observed by a recording inner service must equal the reference predicate wherever the property constrains it. A full-stack leg (engine tlsstack) runs the real Server with with_tls_connection_info + with_tls + ValidateSNI against the real client stack (TlsTransport, HTTP/1 and HTTP/2, ALPN): the handler must run exactly when the request host equals the handshake SNI, and a mismatching Host header (HTTP/1) must be answered without the handler running.",
         note="Trusted base: the reference predicate in the harness (about 20 lines, from the statement); server names are generated as a TLS stack reports them (DNS names, never bracketed); rustls + fixture certificates in the full-stack leg."),
 })
 
@@ -100,7 +100,7 @@ NET_NOTE = ("Trusted base: tokio current_thread scheduler with paused clock (sch
 CHECKS.update({
     "C01": dict(engine="netsim+poolsim", ref="§5 C01, §4 E2/E1",
         technique="end-to-end property-based testing in virtual time: generated concurrent request scripts with id-tagged payloads through the real client stack, pool, hyper and Server; two-directional oracle (handler checks every request, client checks every response); plus a pool-level leg requiring every uncancelled request of a fault-free history to succeed",
-        text="Up to 8/24 concurrent requests over 1-3 h1/h2/auto servers with streamed patterned bodies, chunked responses, handler delays, cancellations at any instant, pool on/off and all pool settings, and HTTP/1.1 protocol upgrades (101 followed by a raw patterned exchange over the taken-over connection, checked at both ends incl. end-of-stream, never followed by another request on that connection): every handled request must carry exactly what its caller sent and every uncancelled request must complete with the response produced for its own id and origin. The open finding (KNOWN_FINDINGS.txt) is matched by signature and does not mask other violations.",
+        text="Up to 8/24 concurrent requests over 1-3 h1/h2/auto servers with streamed patterned bodies, generated header sets on requests and responses (repeated names, empty, 3 kB and opaque non-ASCII values, compared per name and in order), chunked responses, handler delays, cancellations at any instant, pool on/off and all pool settings, and HTTP/1.1 protocol upgrades (101 followed by a raw patterned exchange over the taken-over connection, checked at both ends incl. end-of-stream, never followed by another request on that connection): every handled request must carry exactly what its caller sent and every uncancelled request must complete with the response produced for its own id and origin. The open finding (KNOWN_FINDINGS.txt) is matched by signature and does not mask other violations.",
         note=NET_NOTE),
     "C07": dict(engine="netsim", ref="§5 C07, §4 E2",
         technique="virtual-time schedule generation: the graceful-shutdown signal instant is swept relative to accept, protocol detection, request transfer, handler execution and response transfer; history invariants over the handler log, the executor-wrapped connection tasks and the client results",
